@@ -103,32 +103,114 @@ def _name_occurrences(fn, name):
     return sum(1 for x in ast.walk(fn) if (isinstance(x, ast.Name) and x.id == name) or (isinstance(x, ast.arg) and x.arg == name))
 
 
+def _header_exprs_of(st):
+    """the expressions of statement `st` that are evaluated exactly once, right when control reaches it"""
+    if isinstance(st, ast.Return):
+        return [("value", st.value)] if st.value is not None else []
+    if isinstance(st, ast.Assign):
+        return [("value", st.value)] + [(("targets", i), t) for i, t in enumerate(st.targets) if not isinstance(t, ast.Name)]
+    if isinstance(st, ast.AugAssign):
+        return [("value", st.value)]
+    if isinstance(st, ast.Expr):
+        return [("value", st.value)]
+    if isinstance(st, ast.If):
+        return [("test", st.test)]
+    if isinstance(st, ast.For):
+        return [("iter", st.iter)]
+    if isinstance(st, ast.Raise):
+        return [("exc", st.exc)] if st.exc is not None else []
+    return []
+
+
+def _single_plain_occurrence(expr, name):
+    """the one Load occurrence of `name` in expr, if it is not inside a lambda / comprehension (evaluated later or repeatedly)"""
+    hits = []
+
+    def rec(n, shielded):
+        if isinstance(n, ast.Name) and n.id == name:
+            hits.append((n, shielded))
+        for c in ast.iter_child_nodes(n):
+            sh = shielded or isinstance(n, (ast.Lambda, ast.ListComp, ast.SetComp, ast.DictComp, ast.GeneratorExp))
+            # the first iterable of a comprehension is evaluated once, in the enclosing scope
+            if isinstance(n, (ast.ListComp, ast.SetComp, ast.DictComp, ast.GeneratorExp)) and n.generators and c is n.generators[0]:
+                rec_comp0(c, shielded)
+                continue
+            rec(c, sh)
+
+    def rec_comp0(g, shielded):
+        rec(g.iter, shielded)
+        rec(g.target, True)
+        for i in g.ifs:
+            rec(i, True)
+
+    rec(expr, False)
+    if len(hits) == 1 and not hits[0][1] and isinstance(hits[0][0].ctx, ast.Load):
+        return hits[0][0]
+    return None
+
+
+def _replace_node(root, old, new):
+    for parent in ast.walk(root):
+        for fld, val in ast.iter_fields(parent):
+            if val is old:
+                setattr(parent, fld, new)
+                return True
+            if isinstance(val, list):
+                for i, x in enumerate(val):
+                    if x is old:
+                        val[i] = new
+                        return True
+    return False
+
+
+FULL_CANON = not os.environ.get("SA_CANON_BASIC")
+
+
 def canonicalise(tree):
-    """Canonical form shared by all rules: a temporary that is assigned and then consumed exactly once by the NEXT statement, when that
-    statement is a `return` or a single attribute store (`obj.field = tmp`), is forwarded into its consumer
-        tmp = E ; return tmp        ->  return E
+    """Canonical form shared by all rules: a temporary that is assigned once and consumed exactly once by the NEXT statement — in a part of
+    that statement that is evaluated once, right away (return value, assigned value, call statement, if-test, for-iterable, raise) — is
+    forwarded into its consumer:
+        tmp = E ; return f(tmp)     ->  return f(E)
         tmp = E ; obj.f = tmp       ->  obj.f = E
-    (the name must not occur anywhere else in the function).  Evaluation order is unchanged — E is evaluated immediately before the
-    consumer either way — so rules see the same program whether or not the author named the intermediate value."""
+        tmp = E ; if not tmp: ...   ->  if not E: ...
+    The name must not occur anywhere else in the function, and not under a lambda / comprehension body of the consumer.  Rules therefore see
+    the same program whether or not the author named an intermediate value."""
     for fn in [n for n in ast.walk(tree) if isinstance(n, (ast.FunctionDef, ast.AsyncFunctionDef))]:
-        for blk_owner in ast.walk(fn):
-            for field in ("body", "orelse", "finalbody"):
-                blk = getattr(blk_owner, field, None)
-                if not isinstance(blk, list) or not blk or not isinstance(blk[0], ast.stmt):
-                    continue
-                i = 0
-                while i + 1 < len(blk):
-                    a, b = blk[i], blk[i + 1]
-                    if isinstance(a, ast.Assign) and len(a.targets) == 1 and isinstance(a.targets[0], ast.Name):
-                        nm = a.targets[0].id
-                        consumer_ok = (isinstance(b, ast.Return) and isinstance(b.value, ast.Name) and b.value.id == nm) or \
-                            (isinstance(b, ast.Assign) and len(b.targets) == 1 and isinstance(b.targets[0], ast.Attribute) and isinstance(b.value, ast.Name) and b.value.id == nm
-                             and not any(isinstance(x, ast.Name) and x.id == nm for x in ast.walk(b.targets[0])))
-                        if consumer_ok and _name_occurrences(fn, nm) == 2:
-                            b.value = a.value
-                            del blk[i]
-                            continue
-                    i += 1
+        changed = True
+        while changed:
+            changed = False
+            for blk_owner in ast.walk(fn):
+                for field in ("body", "orelse", "finalbody"):
+                    blk = getattr(blk_owner, field, None)
+                    if not isinstance(blk, list) or not blk or not isinstance(blk[0], ast.stmt):
+                        continue
+                    i = 0
+                    while i + 1 < len(blk):
+                        a, b = blk[i], blk[i + 1]
+                        if isinstance(a, ast.Assign) and len(a.targets) == 1 and isinstance(a.targets[0], ast.Name):
+                            nm = a.targets[0].id
+                            if _name_occurrences(fn, nm) == 2:
+                                done = False
+                                for _, e in _header_exprs_of(b):
+                                    if not FULL_CANON and not (isinstance(e, ast.Name) and isinstance(b, (ast.Return, ast.Assign))):
+                                        continue
+                                    occ = _single_plain_occurrence(e, nm) if e is not None else None
+                                    if occ is None:
+                                        continue
+                                    if occ is e:
+                                        for fld, val in ast.iter_fields(b):
+                                            if val is e:
+                                                setattr(b, fld, a.value)
+                                                done = True
+                                    else:
+                                        done = _replace_node(e, occ, a.value)
+                                    if done:
+                                        break
+                                if done:
+                                    del blk[i]
+                                    changed = True
+                                    continue
+                        i += 1
 
 
 def set_parents(tree):
